@@ -318,11 +318,54 @@ def check_block(prog: Program, res: Result) -> None:
     res.floor(R, 18)
 
 
+def check_memo(prog: Program, res: Result) -> None:
+    """The one-entry frame-image memo of the in-memory / npz datasets (`self.cache_lf`): an image may be re-used only
+    for the SAME labelled frame, i.e. the memo key is the index by which the frame was fetched from self.labels (a
+    frame number is not unique across videos).  The chunk/streaming path reads lf.image per frame and has no memo, so a
+    wrongly keyed memo is a disagreement between the frameworks."""
+    R = "C18-memo"
+    n = 0
+    for ci in prog.classes.values():
+        if ci.module.name != "sleap_nn.data.custom_datasets":
+            continue
+        for fi in ci.methods.values():
+            uses = [x for x in walk_function(fi.node) if isinstance(x, ast.Attribute) and norm(x) == "self.cache_lf"]
+            if not uses or fi.name == "__init__":
+                continue
+            res.touch(fi)
+            fetch = [st for st in walk_function(fi.node) if isinstance(st, ast.Assign) and isinstance(st.value, ast.Subscript) and norm(st.value.value) == "self.labels"]
+            res.ob(R, len(fetch) == 1, fi.qualname, "one frame fetch self.labels[k]", f"{len(fetch)} fetches from self.labels", fi.where)
+            if len(fetch) != 1:
+                continue
+            key, lf = norm(fetch[0].value.slice), norm(fetch[0].targets[0])
+            for c in walk_function(fi.node):
+                if isinstance(c, ast.Compare) and any(norm(x) == "self.cache_lf[0]" for x in [c.left] + c.comparators):
+                    n += 1
+                    other = [norm(x) for x in [c.left] + c.comparators if norm(x) != "self.cache_lf[0]"]
+                    res.ob(R, other == [key] and isinstance(c.ops[0], ast.Eq), fi.qualname, f"memo hit tests the fetch index `{key}`",
+                           f"`{short(c, 50)}` re-uses the memoised image when {other} matches, but the frame was fetched by `{key}`: two labelled frames that "
+                           f"share {other} (same frame number in different videos) get the same image", f"{fi.module.relpath}:{c.lineno}")
+            for st in walk_function(fi.node):
+                if isinstance(st, ast.Assign) and norm(st.targets[0]) == "self.cache_lf":
+                    n += 1
+                    v = st.value
+                    ok = isinstance(v, (ast.List, ast.Tuple)) and len(v.elts) == 2 and norm(v.elts[0]) == key
+                    if ok:
+                        img = astq.deref(fi.node, v.elts[1]) if not isinstance(v.elts[1], ast.Name) else None
+                        defs = [d for d in astq.assignments_to(fi.node, v.elts[1].id) if isinstance(d, ast.Assign)] if isinstance(v.elts[1], ast.Name) else []
+                        ok = any(norm(d.value) == f"{lf}.image" for d in defs) or (img is not None and norm(img) == f"{lf}.image")
+                    res.ob(R, ok, fi.qualname, f"memo stores ({key}, {lf}.image)", f"`{short(st, 50)}` does not store the fetch index with that frame's image", f"{fi.module.relpath}:{st.lineno}")
+    res.floor(R, 2)
+    if n < 2:
+        raise AnalysisError("C18-memo: the frame-image memo (self.cache_lf) was not found")
+
+
 def check(prog: Program, res: Result) -> None:
     check_frame(prog, res)
     check_npz(prog, res)
     check_wiring(prog, res)
     check_block(prog, res)
+    check_memo(prog, res)
     res.assumptions += ["pixel equality up to 8-bit quantisation is not decided", "centered-instance crop CENTRING differs between frameworks when scale != 1 (documented; excluded by the property's own wording)"]
 
 
@@ -331,6 +374,9 @@ GCF = "sleap_nn/data/get_data_chunks.py"
 SDF = "sleap_nn/data/streaming_datasets.py"
 MTF = "sleap_nn/training/model_trainer.py"
 VARIANTS = [
+    Variant("memo-keyed-by-frame-number", CDF, "            if lf_idx == self.cache_lf[0]:\n                img = self.cache_lf[1]\n            else:\n                img = lf.image\n                self.cache_lf = [lf_idx, img]",
+            "            if lf.frame_idx == self.cache_lf[0]:\n                img = self.cache_lf[1]\n            else:\n                img = lf.image\n                self.cache_lf = [lf.frame_idx, img]", "C18-memo"),
+    Variant("memo-stale-key", CDF, "                self.cache_lf = [lf_idx, img]", "                self.cache_lf = [idx, img]", "C18-memo"),
     Variant("chunk-forgets-centroid-scale", GCF, "    sample[\"image\"], sample[\"centroids\"] = apply_resizer(\n        sample[\"image\"], sample[\"centroids\"], scale=scale\n    )",
             "    sample[\"image\"], _ = apply_resizer(\n        sample[\"image\"], sample[\"centroids\"], scale=scale\n    )", "C18-frame"),
     Variant("streaming-other-sigma", SDF, "            sigma=self.confmap_head.sigma,\n            output_stride=self.confmap_head.output_stride,\n            is_centroids=True,", "            sigma=self.confmap_head.sigma * 2,\n            output_stride=self.confmap_head.output_stride,\n            is_centroids=True,", "C18-frame"),
